@@ -22,6 +22,10 @@ QUICK_CLASSES = ["Db", "DbGrid", "Model", "NeighUnique", "NeighBench", "NeighMov
 MORE_CLASSES = ["NeighCell", "NeighImage", "PolyLine2D"]
 
 
+# recursive operators over files of ~100 tokens need a deeper Java stack than the default
+TLC_JAVA = "-Xmx8g -XX:+UseParallelGC -Xss256m"
+
+
 def classes_cfg(level, classes):
     return "SPECIFICATION Spec\nCONSTANTS\n Level = %d\n Classes = {%s}\n" % (level, ", ".join('"%s"' % c for c in classes))
 
@@ -173,7 +177,7 @@ def model_and_cases(ck, classes, level, per_class, rng, tag, workers):
     vlib.write_ndjson(pp, picks)
     mcfg = os.path.join(w, "mc_%s.cfg" % tag)
     open(mcfg, "w").write("SPECIFICATION Spec\nCONSTANTS\n Level = %d\nCHECK_DEADLOCK FALSE\n" % level)
-    res = vlib.run_tlc("MC_NeutralFile", mcfg, workers=workers, env={"PICKS": pp}, timeout=3000)
+    res = vlib.run_tlc("MC_NeutralFile", mcfg, workers=workers, env={"PICKS": pp, "JAVA_TOOL_OPTIONS": TLC_JAVA}, timeout=3000)
     if res.violation:
         raise Broken("MC_NeutralFile reports an error:\n" + res.violation)
     if len(res.emitted) != len(picks):
